@@ -11,7 +11,9 @@ class Fail(object):
 
     def __init__(self, bucket, detail=""):
         self.bucket = bucket
-        self.detail = detail if isinstance(detail, str) else repr(detail)
+        detail = detail if isinstance(detail, str) else repr(detail)
+        # (cases at scale can make a report of megabytes: keep both ends)
+        self.detail = detail if len(detail) <= 6000 else detail[:4000] + " ...<%d chars>... " % (len(detail) - 5500) + detail[-1500:]
 
     def __repr__(self):
         return "Fail(%r, %r)" % (self.bucket, self.detail[:300])
